@@ -13,11 +13,11 @@ Definition x1 : addr := [1]. Definition x2 : addr := [2]. Definition x3 : addr :
 Definition rS : addr := [40]. Definition rN : addr := [50].
 (** S: a one-chunk file (its root is its only data chunk); N: a manifest over S *)
 Definition cat0 : catalogue :=
-  [ (rA, {| f_leaves := [x1; x2]; f_edges := [rA] |});
-    (rB, {| f_leaves := [x1; x3]; f_edges := [rB] |});
-    (rM, {| f_leaves := [x1; x3]; f_edges := [rB; rM] |});
-    (rS, {| f_leaves := [rS]; f_edges := [rS] |});
-    (rN, {| f_leaves := [rS]; f_edges := [rS; rN] |}) ].
+  [ (rA, {| f_leaves := [x1; x2]; f_edges := [rA]; f_probe := [] |});
+    (rB, {| f_leaves := [x1; x3]; f_edges := [rB]; f_probe := [] |});
+    (rM, {| f_leaves := [x1; x3]; f_edges := [rB; rM]; f_probe := [] |});
+    (rS, {| f_leaves := [rS]; f_edges := [rS]; f_probe := [] |});
+    (rN, {| f_leaves := [rS]; f_edges := [rS; rN]; f_probe := [] |}) ].
 
 Definition req (t : N) (root a : addr) := GLs (OPut t PRequest (Some root) [(a, [t])]).
 Definition up (t : N) (a : addr) := GLs (OPut t PUpload None [(a, [t])]).
